@@ -46,6 +46,8 @@ class CholLinearOperator(RootLinearOperator):
             else:
                 raise ValueError("chol must be either lower or upper triangular")
         super().__init__(chol)
+        # `upper` is a constructor argument: record it so that copies / conversions / rebuilds keep the orientation
+        self._nondifferentiable_kwargs["upper"] = upper
         self.upper = upper
 
     @property
